@@ -2,7 +2,7 @@ CONSTANTS
   Owners = {"u1"} Provers = {"p1", "p2", "p3"} Merkles = {"m1"} Reps = {3} Rels = {0, 30} Doms = {}
   MAXH = 8
   FIX = {"addprover", "walk", "repost"}
-  PI = 2 PC = 3 PCS = 2 PFS = 1 PMIN = 1 PPRICE = 0 FUND = 0 GAUGE0 = 90 H0 = 2 Prices = {} SZ1 = 3 SZ2 = 5 SZ3 = 1 MaxFiles = 1
+  PI = 2 PC = 3 PCS = 2 PFS = 1 PMIN = 1 PPRICE = 0 FUND = 0 GAUGE0 = 90 H0 = 2 Prices = {} SZ1 = 3 SZ2 = 5 SZ3 = 1 GAUGE2 = 9 Rels2 = {0, 3} MaxFiles = 1
 INIT Init
 NEXT NextRewards
 VIEW View
